@@ -844,10 +844,12 @@ func (r *envelopingReader) Read(data []byte) (n int, err error) {
 		if r.current != nil {
 			bytesRead, err := r.current.Read(data)
 			isEOF := errors.Is(err, io.EOF)
-			if bytesRead > 0 && (err == nil || isEOF) {
+			if err == nil || (bytesRead > 0 && isEOF) {
+				// (This includes a source that returns (0, nil), which an
+				// io.Reader may do: that is not the end of the message.)
 				return bytesRead, nil
 			}
-			if err != nil && !isEOF {
+			if !isEOF {
 				r.err = err
 				return bytesRead, err
 			}
